@@ -22,7 +22,7 @@ REQUIRED_COUNTERS = ['programs_run', 'planted_failures', 'handler_entries_expect
 KINDS = {
     'div0': {'n': '10 \\ zd%', 'fix': 'zd% = 1', 'init': 'zd% = 0', 'fixed_val': 10},
     'div0f': {'n': '5 / zdf', 'fix': 'zdf = 1', 'init': 'zdf = 0', 'fixed_val': 5},
-    'ovf': {'n': '32767 + zo%', 'fix': 'zo% = 0', 'init': 'zo% = 1', 'fixed_val': 32767},
+    'ovf': {'n': '32700 + zo%', 'fix': 'zo% = 0', 'init': 'zo% = 100', 'fixed_val': 32700},
     'sub': {'n': 'zarr(zi%)', 'fix': 'zi% = 1', 'init': 'zi% = 9', 'fixed_val': 0},
     'ill': {'n': 'ASC(zes$)', 'fix': 'zes$ = "A"', 'init': 'zes$ = ""', 'fixed_val': 65},
 }
@@ -31,9 +31,13 @@ CLASS = {'div0': 'DIVISION_BY_ZERO', 'div0f': 'DIVISION_BY_ZERO', 'ovf': 'INVALI
 ERRKIND = {'div0': 'div0', 'div0f': 'div0', 'ovf': 'overflow', 'sub': 'subscript', 'ill': 'illegal-call', 'data': 'out-of-data'}
 
 
-def wrap(e, depth, r):
+def wrap(e, depth, r, safe=False):
+    forms = ['(3 + {e})', '(2 * ({e}))', 'ABS({e})', '(zone% + ({e}))', '(({e}) - zone%)', 'zid%(({e}))']
+    if safe:
+        # wrappers that cannot overflow again once the cause is fixed
+        forms = ['ABS({e})', '(({e}) - zone%)', 'zid%(({e}))', '(0 + ({e}))']
     for _ in range(depth):
-        e = r.choice(['(3 + {e})', '(2 * ({e}))', 'ABS({e})', '(zone% + ({e}))', '(({e}) - zone%)', 'zid%(({e}))']).format(e=e)
+        e = r.choice(forms).format(e=e)
     return e
 
 
@@ -87,7 +91,7 @@ def stmt_text(s, r):
     kind, form, t = s['kind'], s['form'], s['tag']
     if kind == 'data':
         return f'zq = ztz% * {t}&: READ zdat'
-    e = wrap(KINDS[kind]['n'], s['depth'], r)
+    e = wrap(KINDS[kind]['n'], s['depth'], r, safe=(kind == 'ovf'))
     if form == 'assign':
         return f'zq = 7 + {e}: PRINT {t}&; zq'
     if form == 'print':
@@ -117,6 +121,7 @@ def build(pl, r):
     outcome = ['halt']
     inits = sorted({KINDS[s['kind']]['init'] for s in steps if s['k'] == 'fail' and s['kind'] in KINDS})
     dead = False
+    fixed_all = False
     for s in steps:
         txt = stmt_text(s, r)
         body.append(txt)
@@ -150,10 +155,14 @@ def build(pl, r):
                 if s['kind'] != 'data' and s['form'] in ('assign', 'store', 'strassign'):
                     exp.append(('tag', s['tag']))
             elif mode == 'goto-resume':
-                exp.append(('handler', ek))
-                cnt['handler'] += 1
-                cnt['resume'] += 1
-                exp.append(('tag', s['tag']))         # re-executed from its start after the fix
+                if not fixed_all:
+                    exp.append(('handler', ek))
+                    cnt['handler'] += 1
+                    cnt['resume'] += 1
+                    fixed_all = True                  # the handler repairs every planted cause
+                else:
+                    cnt['fail'] -= 1
+                exp.append(('tag', s['tag']))         # (re-)executed from its start after the fix
     fixes = ': '.join(sorted({KINDS[k]['fix'] for k in KINDS}))
     lines = ['DIM zarr(3)', 'zone% = 1'] + inits
     handler = []
